@@ -1,4 +1,7 @@
 import TT.Driver.C03
+import TT.Driver.C04
+import TT.Driver.C06
+import TT.Driver.C11
 /-
 Line-protocol driver: one query per input line, one answer per output line.
 `<suite> <op> <args...>`; unknown queries answer `bad-op` (never a default value).
@@ -8,6 +11,9 @@ open TT.Driver
 def answer (line : String) : String :=
   match line.trimAscii.toString.splitOn " " with
   | "c03" :: rest => c03 rest
+  | "c04" :: rest => c04 rest
+  | "c06" :: rest => c06 rest
+  | "c11" :: rest => c11 rest
   | _ => "bad-op"
 
 partial def loop (h : IO.FS.Stream) (out : IO.FS.Stream) : IO Unit := do
